@@ -218,6 +218,16 @@ def required_labels(tier):
     return ['sequence', 'triple', 'M1', 'M2', 'M3', 'M4', 'v1-9', 'v10-26', 'v27-40']
 
 
+def _fuzz(tier):
+    """Coverage-guided phase (atheris), thorough tier (or VERIF_FUZZ_RUNS=<n> in any tier)."""
+    import os
+    runs = int(os.environ.get('VERIF_FUZZ_RUNS', '0' if tier == 'quick' else '320000'))
+    if not runs:
+        return []
+    from .. import fuzz
+    return [fuzz.fuzz_phase(__name__, runs)]
+
+
 def phases(tier, seed):
     n = 3200 if tier == 'quick' else 100000
     return [
@@ -226,4 +236,4 @@ def phases(tier, seed):
         Enum('sequences', lambda: sequence_cases(tier, seed), exhaustive=False,
              note='Structured Append sequences: the metadata of every symbol against its matrix'),
         Search('free', gens.make_cases(big=0.05), n),
-    ]
+    ] + _fuzz(tier)
